@@ -47,9 +47,24 @@ var intTyOfCaster = map[string]string{"ToInt": "int", "ToInt64": "i64", "ToInt32
 var allCasters = []string{"ToInt", "ToInt64", "ToInt32", "ToInt16", "ToInt8", "ToUint", "ToUint64", "ToUint32", "ToUint16", "ToUint8",
 	"ToFloat64", "ToFloat32", "ToBool", "ToString", "ToNumber", "ToBinary", "ToTime", "ToDate", "ToTimestamp"}
 
+type (
+	celsius  float64
+	myFlt32  float32
+	myInt8   int8
+	myUint16 uint16
+)
+
+var otherTurn int
+var otherTargets = []interface{}{struct{ X int }{}, celsius(0), myInt(0), myString(""), myBool(false), myBytes(nil), myInt8(0), myUint16(0), myFlt32(0), myFloat(0), myByte(0), new(int), []int{}, map[string]int{}, time.Duration(0), time.Month(1)}
+
 func callCast(callee string, src interface{}) (res interface{}, err error, pan string) {
 	pan = guard(func() {
-		if strings.HasPrefix(callee, "To:") {
+		if callee == "To:other" {
+			// a target outside the nineteen supported ones: in turn a struct, NAMED types over every basic kind (which a
+			// dispatch on reflect.Kind would take for their underlying types), a pointer, a slice, a map, a func
+			otherTurn++
+			res, err = cast.To(otherTargets[otherTurn%len(otherTargets)], src)
+		} else if strings.HasPrefix(callee, "To:") {
 			res, err = cast.To(tySample[strings.TrimPrefix(callee, "To:")], src)
 		} else {
 			res, err = casterFns[callee](src)
@@ -741,6 +756,10 @@ func genC10(cw *caseWriter, seed uint64, tier string) {
 					// other declarations
 					emitImpAfter(cw, "C10", f, ty, []interface{}{struct{}{}, "not base64 !!", []interface{}{1}}, v)
 				}
+				if i%4 == 1 {
+					// … into a cell that already holds what the SAME value gave (imported by key, through the cell, from text)
+					emitImpAfter(cw, "C10", f, ty, []interface{}{v, v, v}, v)
+				}
 			}
 		}
 	}
@@ -922,6 +941,12 @@ func genC11(cw *caseWriter, seed uint64, tier string) {
 				}
 				emitImpFor(cw, "C11", "binary", ty, base64.StdEncoding.EncodeToString(b))
 				if k == 2 {
+					// the same payload with a line break inside the text (the decoder skips CR and LF: the payload's size
+					// is that of the bytes decoded, not of the text)
+					if e := base64.StdEncoding.EncodeToString(b); len(e) >= 4 {
+						emitImpFor(cw, "C11", "binary", ty, e[:2]+"\n"+e[2:])
+						emitImpFor(cw, "C11", "binary", ty, e[:len(e)-1]+"\r\n"+e[len(e)-1:])
+					}
 					// … into a cell that has just rejected an ill-sized payload and a text that is not base64
 					emitImpAfter(cw, "C11", "binary", ty, []interface{}{"AAAAAAAAAAAAAAAAAAAAAAAAAA==", "!!", "AAAAAAAAAAAAAAAAAAAAAAAAAA=="}, base64.StdEncoding.EncodeToString(b))
 				}
